@@ -24,7 +24,8 @@ def sharedWrites : List SharedWrite := [
   { path := "typedpy/serialization/serialization.py", file := "serialization.py", func := "_structure_simplicity_level", attr := "<lru_cache>", target := "<module>", valueKind := .keyedCache, readBack := true },
   { path := "typedpy/serialization/serialization.py", file := "serialization.py", func := "_get_enum_mapping", attr := "<lru_cache>", target := "<module>", valueKind := .keyedCache, readBack := true },
   { path := "typedpy/serialization/serialization.py", file := "serialization.py", func := "_get_class_deserialization_mapping_for_simple_class", attr := "<lru_cache>", target := "<module>", valueKind := .keyedCache, readBack := true },
-  { path := "typedpy/serialization/serialization.py", file := "serialization.py", func := "serialize_internal", attr := "<dynamic>", target := "cls", valueKind := .definitionOnly, readBack := false }
+  { path := "typedpy/serialization/serialization.py", file := "serialization.py", func := "serialize_internal", attr := "<dynamic>", target := "cls", valueKind := .definitionOnly, readBack := false },
+  { path := "typedpy/structures/structures.py", file := "structures.py", func := "UniqueMixin.__manage_uniqueness_for_field__", attr := "<container>", target := "instance_by_value_for_current_struct", valueKind := .readModifyWrite, readBack := true }
 ]
 
 end Typedpy.Pinned
